@@ -327,7 +327,11 @@ func ResolveFunc(prog *ssa.Program, name string) *ssa.Function {
 		if ptr {
 			T = types.NewPointer(T)
 		}
-		return prog.LookupMethod(T, pkg.Pkg, meth)
+		sel := prog.MethodSets.MethodSet(T).Lookup(pkg.Pkg, meth)
+		if sel == nil {
+			return nil
+		}
+		return prog.MethodValue(sel)
 	}
 	j := strings.LastIndex(name, ".")
 	if j < 0 {
